@@ -65,12 +65,24 @@ def default_plan(tier, scale=1.0):
     heavy_ops = ["conv3x3_c72_pc", "conv1x1_c40"]
     resize_first = [dict(start=([1, 24, 24, 16], "int8"), steps=st) for st in (["resize_nn2", "conv3x3", "conv3x3"], ["resize_nn2", "conv3x3", "dw3x3"], ["resize_nn2", "dw3x3"],
                                                                                ["resize_nn2", "conv3x3"], ["conv1x1", "resize_nn2", "conv3x3"])]
+    # a CPU-produced tensor that a later CPU operator still reads, copied (bypassed RESHAPE) and then overwritten in place on the NPU
+    cpualias = [h for h in (dict(start=(list(st[0]), st[1]), steps=["cpu_neg", m, "reshape", x]) for st in nets.STARTS_Q[:2] for m in ("tap", "branch_cpu")
+                            for x in (("add_const", "relu") if tier == "quick" else ("add_const", "mul_const", "relu", "hard_swish", "conv1x1"))) if nets.build(h, 0) is not None]
+    # histories behind defects that only the thorough tier had reached (now fixed): kept in the quick tier as regression levels
+    def H(start, *steps):
+        return dict(start=(list(start[0]), start[1]), steps=list(steps))
+    reg_blockdep = [H(((1, 48, 48, 8), "int8"), a, "conv3x3v_relu6", "dw3x3s2") for a in ("dw3x3s2", "maxpool2x2")]
+    reg_tilepad = [H(st, "resize_bl2_hp") for st in (((1, 8, 8, 8), "int8"), ((1, 7, 33, 3), "uint8"), ((1, 8, 8, 32), "uint8"))]
+    reg_upcascade = [H(((1, 16, 16, 16), "int8"), a, "resize_nn2") for a in ("relu", "conv3x3", "add_const")] + [H(((1, 7, 33, 3), "uint8"), "conv1x1", "resize_nn2")]
+    reg_iface = [H(((1, 33, 7, 40), "int8"), "argmax"), H(((1, 33, 7, 40), "int8"), "argmax64"), H(((1, 1, 1, 32), "int8"), "resize_nn2_ac"), H(((1, 1, 1, 32), "int8"), "resize_bl2_ac")]
     if tier == "quick":
         return [("G1xC8", nets.STARTS_Q, nets.SIGMA_Q, 1, "c8"),
                 ("resizefirstxCR", resize_first, "cR"),
                 ("bigweightsxCW", histories(heavy, heavy_ops, 1) + histories(heavy[:1], heavy_ops, 2), "cW"),
                 ("G2xC1", nets.STARTS_Q[:2], nets.SIGMA_Q, 2, "c2"),
                 ("fork3xC2", fork_histories(nets.STARTS_Q[:2], nets.SIGMA_C + ["cpu_neg"], mids, nets.SIGMA_C + ["cpu_neg"]), "c2"),
+                ("cpualias4xC2", cpualias, "c2"),
+                ("regblockdepxCP", reg_blockdep, "cP"), ("regtilepadxC8", reg_tilepad, "c8"), ("regupcascadexC8", reg_upcascade, "c8"), ("regifacexC2", reg_iface, "c2"),
                 ("perfcascade3xCP", histories(big, perf_ops, 3), "cP")]
     return [("G1xC24", nets.STARTS_T, nets.SIGMA_T, 1, "c24"),
             ("resizefirstxCR", resize_first + [dict(start=([1, 16, 16, 8], "int8"), steps=h["steps"]) for h in resize_first], "cR"),
@@ -78,6 +90,7 @@ def default_plan(tier, scale=1.0):
             ("G2xC8", nets.STARTS_Q, nets.SIGMA_Q, 2, "c8"),
             ("chain3xC4", nets.STARTS_Q[:2], nets.SIGMA_C, 3, "c4"),
             ("perfcascade3xCP", histories(big + [((1, 48, 48, 8), "int8")], nets.SIGMA_C, 3), "cP"),
+            ("cpualias4xC8", cpualias, "c8"),
             ("fork3xC8", fork_histories(nets.STARTS_Q, nets.SIGMA_C + ["cpu_neg", "concat", "split"], mids, nets.SIGMA_C + ["cpu_neg", "concat", "reshape"]), "c8")]
 
 
